@@ -181,16 +181,16 @@ func TestVF_C20_RunOptions(t *testing.T) {
 // ---------------------------------------------------------------- (b) deploy validation
 
 type c20DeployCase struct {
-	TLS        int    `json:"tls"`  // 0 absent, 1 --tls, 2 --tls=false
-	Host       int    `json:"host"` // 0 none, 1 one, 2 two
-	Prefix     int    `json:"prefix"` // 0 none, 1 "/", 2 "/api", 3 "/" and "/api", 4 "api/" only
-	MaxReq     bool   `json:"max_req"`
-	BufReq     int    `json:"buf_req"` // 0 absent, 1 --buffer-requests, 2 --buffer-requests=false
-	MaxResp    bool   `json:"max_resp"`
-	BufResp    int    `json:"buf_resp"`
-	Forward    int    `json:"forward"` // 0 absent, 1 true, 2 false
-	Cert       int    `json:"cert"`    // 0 none, 1 both, 2 only certificate, 3 only key
-	NoTarget   bool   `json:"no_target"`
+	TLS      int  `json:"tls"`    // 0 absent, 1 --tls, 2 --tls=false
+	Host     int  `json:"host"`   // 0 none, 1 one, 2 two
+	Prefix   int  `json:"prefix"` // 0 none, 1 "/", 2 "/api", 3 "/" and "/api", 4 "api/" only
+	MaxReq   bool `json:"max_req"`
+	BufReq   int  `json:"buf_req"` // 0 absent, 1 --buffer-requests, 2 --buffer-requests=false
+	MaxResp  bool `json:"max_resp"`
+	BufResp  int  `json:"buf_resp"`
+	Forward  int  `json:"forward"` // 0 absent, 1 true, 2 false
+	Cert     int  `json:"cert"`    // 0 none, 1 both, 2 only certificate, 3 only key
+	NoTarget bool `json:"no_target"`
 }
 
 func c20DeployCases(yield func(c20DeployCase) bool) {
